@@ -30,6 +30,8 @@ pub fn envs_from(args: &Args) -> Envs {
 pub fn outcome_json(spec: &Spec, out: &Outcome, with_obs: bool, with_orders: bool) -> Value {
     let mut fired = std::collections::BTreeMap::<String, u64>::new();
     let mut inert = 0u64;
+    let mut clock_reads = 0u64;
+    let mut pid_reads = 0u64;
     for (i, log) in out.logs.iter().enumerate() {
         let plan = &spec.plans[i];
         if log.delivered() >= 16 {
@@ -38,6 +40,8 @@ pub fn outcome_json(spec: &Spec, out: &Outcome, with_obs: bool, with_orders: boo
                 "reference" => "entropy_reseed",
                 "delivery_only" => "same_key_faulty_delivery",
                 "layout_only" => "same_key_displaced_layout",
+                "identity_only" => "same_key_other_clock_and_pid",
+                "repeat_only" => "same_key_repeated_on_thread",
                 other => other,
             }
             .to_owned();
@@ -60,6 +64,14 @@ pub fn outcome_json(spec: &Spec, out: &Outcome, with_obs: bool, with_orders: boo
         if log.skewed {
             *fired.entry("layout_skew".to_owned()).or_insert(0) += 1;
         }
+        if plan.has_identity_fault() {
+            *fired.entry("clock_and_pid_change".to_owned()).or_insert(0) += 1;
+        }
+        if plan.repeat > 0 {
+            *fired.entry("same_thread_repeat".to_owned()).or_insert(0) += 1;
+        }
+        clock_reads += log.clock_reads;
+        pid_reads += log.pid_reads;
     }
     let (class, nontrivial) = out
         .obs
@@ -111,6 +123,8 @@ pub fn outcome_json(spec: &Spec, out: &Outcome, with_obs: bool, with_orders: boo
         "nontrivial": nontrivial,
         "fired": fired,
         "inert": inert,
+        "clock_reads": clock_reads,
+        "pid_reads": pid_reads,
         "event": format!("{event:016x}"),
         "orders": orders,
         "keys": keys,
